@@ -17,6 +17,10 @@ def main():
     src, cid = sys.argv[1], sys.argv[2]
     meta = json.load(open(os.path.join(src, "meta.json"), encoding="utf-8")) if os.path.exists(os.path.join(src, "meta.json")) else {}
     patch = os.path.abspath(os.path.join(src, "patch.diff"))
+    prev = os.path.join(V, "controls", cid, "meta.json")
+    prev_conf = json.load(open(prev, encoding="utf-8")).get("confirmation") if os.path.exists(prev) else None
+    if prev_conf and prev_conf.get("behaviour_preserved") and os.path.abspath(src) == os.path.abspath(os.path.join(V, "controls", cid)):
+        return evaluate(src, cid, meta, patch, prev_conf)          # re-evaluation of a stored control: the confirmation is kept
     wt = tempfile.mkdtemp(prefix="rfchk-", dir="/tmp")
     os.rmdir(wt)
     rc, out = sh("git -C %s worktree add -q --detach %s HEAD" % (REPO, wt))
@@ -33,6 +37,10 @@ def main():
     finally:
         sh("git -C %s worktree remove --force %s" % (REPO, wt))
         shutil.rmtree(wt, ignore_errors=True)
+    return evaluate(src, cid, meta, patch, conf)
+
+
+def evaluate(src, cid, meta, patch, conf):
     fired = {}
     # the checks run against a scratch COPY of /repo with the patch applied (VERIF_REPO), never against /repo itself
     scratch = tempfile.mkdtemp(prefix="rfrun-", dir="/tmp")
@@ -58,6 +66,9 @@ def main():
     mp = os.path.join(dst, "meta.json")
     if os.path.exists(mp):
         first = json.load(open(mp, encoding="utf-8")).get("first_evaluation")
+    if os.path.exists(mp):
+        old_m = json.load(open(mp, encoding="utf-8"))
+        meta = {k: meta.get(k) or old_m.get(k) for k in ("kind", "files", "summary")}
     m = {"id": cid, "author": "independent sub-agent (saw the repository worktree and the oracle, nothing from /verif)",
          "kind": meta.get("kind"), "files": meta.get("files"), "summary": meta.get("summary"),
          "confirmation": conf, "false_alarms": fired, "silent": not fired}
